@@ -154,6 +154,22 @@ func (vc *VC) cover(kind, pc string) {
 	o.Cover = true
 }
 
+// relaxedScript drops every quantified assumption. A model of the relaxed query
+// may be spurious; it is only used as a candidate input that is then replayed on
+// the real code (a refutation is trusted only if the replay confirms it).
+func (o *Obligation) relaxedScript() string {
+	full := o.script(true)
+	var b strings.Builder
+	for _, ln := range strings.Split(full, "\n") {
+		if strings.HasPrefix(ln, "(assert ") && !strings.HasPrefix(ln, "(assert (not ") && (strings.Contains(ln, "(forall ") || strings.Contains(ln, "(exists ")) {
+			continue
+		}
+		b.WriteString(ln)
+		b.WriteByte('\n')
+	}
+	return b.String()
+}
+
 func (o *Obligation) script(withModel bool) string {
 	var b strings.Builder
 	b.WriteString("(set-option :produce-models true)\n")
